@@ -16,9 +16,10 @@ const (
 	typeBash  string = "bash"
 )
 
-var convMapping = map[string]transpiler.Converter{
-	typeBatch: batch.New(),
-	typeBash:  bash.New(),
+// A converter accumulates the code of one transpilation, therefore every requested target gets a fresh one.
+var convMapping = map[string]func() transpiler.Converter{
+	typeBatch: func() transpiler.Converter { return batch.New() },
+	typeBash:  func() transpiler.Converter { return bash.New() },
 }
 
 type options struct {
@@ -58,12 +59,12 @@ func parseOptions() options {
 			}
 			options.out = cValue
 		case "-t", "--type":
-			conv, ok := convMapping[cValue]
+			newConv, ok := convMapping[cValue]
 
 			if !ok {
 				panic(fmt.Errorf("unknown converter type %s. Allowed types are %s", cValue, strings.Join(types, ", ")))
 			}
-			options.converters = append(options.converters, conv)
+			options.converters = append(options.converters, newConv())
 		default:
 			panic(fmt.Errorf("unknown option %s", cSwitch))
 		}
@@ -93,6 +94,10 @@ func main() {
 		file := filepath.Base(in)
 		file = file[0 : len(file)-len(filepath.Ext(in))] // Remove extension.
 
-		os.WriteFile(filepath.Join(options.out, fmt.Sprintf("%s.%s", file, conv.Extension())), []byte(dump), 0777)
+		err = os.WriteFile(filepath.Join(options.out, fmt.Sprintf("%s.%s", file, conv.Extension())), []byte(dump), 0777)
+
+		if err != nil {
+			panic(err)
+		}
 	}
 }
